@@ -488,7 +488,7 @@ func bigReferrers(r *vh.Run, i int) {
 // timing is one-sided: the passes get honest tick times, delays only make the blob older.
 func tickSequence(r *vh.Run, i int) {
 	kind := []vh.StoreKind{vh.Dir, vh.Mem, vh.MemDir}[i%3]
-	variant := []string{"late-upload", "late-upload+read", "re-push", "late-upload+manifest-read"}[(i/3)%4]
+	variant := []string{"late-upload", "late-upload+read", "re-push", "late-upload+manifest-read", "content-deleted", "restart"}[(i/3)%6]
 	root := ""
 	if kind != vh.Mem {
 		root = r.TempDir("tick")
@@ -522,7 +522,42 @@ func tickSequence(r *vh.Run, i int) {
 		r.Inconclusive(fmt.Sprintf("tickSequence: tagged image not accepted (%d)", rs.Status))
 		return
 	}
+	var gone *vh.Man
+	if variant == "content-deleted" {
+		gone = vh.MkImage("gone", "sha256", vh.MTImage, cfg, vh.MTConfig, nil, "", "", map[string]string{"n": fmt.Sprint(i), "g": "1"})
+		if rs := vh.Do(srv, vh.Req{Method: "PUT", URL: "/v2/t/manifests/gone", H: map[string]string{"Content-Type": gone.MT}, Body: gone.Raw}); rs.Status != 201 {
+			r.Inconclusive(fmt.Sprintf("tickSequence: second image not accepted (%d)", rs.Status))
+			return
+		}
+	}
 	passesFor(G + 600*time.Millisecond) // the index was last changed long ago, as the passes count
+	if variant == "content-deleted" {
+		// (c) the content of a tagged manifest is removed through the blob API long after the last change of the index:
+		// what stays behind is an index entry without content, and "one pass ... leaves no index entry without backing
+		// content" - the passes that follow have to visit the repository
+		if rs := vh.Do(srv, vh.Req{Method: "DELETE", URL: "/v2/t/blobs/" + gone.D}); rs.Status != 202 {
+			r.Inconclusive(fmt.Sprintf("tickSequence: blob delete answered %d", rs.Status))
+			return
+		}
+		last := time.Now()
+		for time.Since(last) < G+400*time.Millisecond {
+			pass()
+			time.Sleep(40 * time.Millisecond)
+		}
+		pass()
+		r.Count("tick_sequence_trials", 1)
+		r.Count("tick_sequence_passes", passes)
+		r.Distinct("tick_sequence_cells", kind.String()+"/"+variant)
+		wit["passes"] = passes
+		tl := vh.Do(srv, vh.Req{Method: "GET", URL: "/v2/t/tags/list"})
+		if strings.Contains(string(tl.Body), `"gone"`) {
+			r.Violation("entry-without-content-survives-the-ticks", fmt.Sprintf("%s store: the content of the manifest tagged gone was removed through the blob API %s ago; after %d store-wide passes the tag is still listed (%s) although nothing backs it - the pass no longer visits the repository", kind, time.Since(last).Round(time.Millisecond), passes, strings.TrimSpace(string(tl.Body))), wit)
+		}
+		if rs := vh.Do(srv, vh.Req{Method: "GET", URL: "/v2/t/manifests/keep", H: map[string]string{"Accept": vh.AcceptAll}}); rs.Status != 200 {
+			r.Violation("tagged-image-lost:tick-sequence", fmt.Sprintf("the tagged image is gone after the passes (status %d)", rs.Status), wit)
+		}
+		return
+	}
 	x := []byte(fmt.Sprintf("unreferenced content that arrives late %d", i))
 	xd := vh.DigestOf("sha256", x)
 	if rs := vh.Do(srv, vh.Req{Method: "POST", URL: "/v2/t/blobs/uploads/?digest=" + xd, Body: x}); rs.Status != 201 {
@@ -534,6 +569,20 @@ func tickSequence(r *vh.Run, i int) {
 	case "late-upload+read":
 		vh.Do(srv, vh.Req{Method: "GET", URL: "/v2/t/tags/list"})
 	case "late-upload+manifest-read":
+		vh.Do(srv, vh.Req{Method: "GET", URL: "/v2/t/manifests/keep", H: map[string]string{"Accept": vh.AcceptAll}})
+	case "restart":
+		// (d) the registry is stopped right after the upload (the blob is young: the collection in Close keeps it) and
+		// started again on the same directory; only the tag is read.  The passes of the new process have to come back
+		// to the repository once the blob's grace period is over
+		if kind != vh.Dir {
+			break // nothing of a memory store survives its process
+		}
+		_ = srv.Close()
+		srv = vh.New(vh.Conf(kind, root, vh.Policy{Untagged: true, Dangling: true, WithSubj: true, Grace: G}))
+		prev = time.Now().Add(-time.Second)
+		if rs := vh.Do(srv, vh.Req{Method: "HEAD", URL: "/v2/t/blobs/" + xd}); rs.Status != 200 {
+			r.Count("tick_sequence_restart_vacuous", 1) // collected at Close (a slow machine) or not backed by the directory: nothing left to show
+		}
 		vh.Do(srv, vh.Req{Method: "GET", URL: "/v2/t/manifests/keep", H: map[string]string{"Accept": vh.AcceptAll}})
 	case "re-push":
 		passesFor(G * 3 / 4)
